@@ -12,6 +12,7 @@ import (
 	"sort"
 	"strings"
 	"sync"
+	"time"
 )
 
 // Violation is one refuting observation.
@@ -105,6 +106,7 @@ type Ctx struct {
 	hashSet  map[uint64]struct{}
 	progress *os.File
 	curCase  int
+	out      string
 }
 
 // Thorough reports whether the tier is "thorough".
@@ -245,6 +247,50 @@ func (c *Ctx) Case(i int, describe func() interface{}, keyOf func(p PanicInfo) s
 	fn()
 }
 
+// HangWatch starts a per-call watchdog: if a single watched call (bracketed by
+// CallBegin/CallEnd) has not returned after limit, the call is reported as a
+// hang (with the logged detail as witness), the result file is written and
+// the worker exits. It returns the functions that bracket a call.
+func (c *Ctx) HangWatch(limit time.Duration, key string) (begin func(detail func() string), end func()) {
+	var mu sync.Mutex
+	var started time.Time
+	var running bool
+	var det func() string
+	go func() {
+		for {
+			time.Sleep(500 * time.Millisecond)
+			mu.Lock()
+			if running && time.Since(started) > limit {
+				d := ""
+				if det != nil {
+					func() {
+						defer func() { recover() }()
+						d = det()
+					}()
+				}
+				mu.Unlock()
+				buf := make([]byte, 1<<16)
+				buf = buf[:runtime.Stack(buf, true)]
+				c.Violate(key, fmt.Sprintf("a single call did not return within %s", limit), map[string]interface{}{"input": d, "goroutines": string(buf)})
+				c.finish()
+				os.Exit(0)
+			}
+			mu.Unlock()
+		}
+	}()
+	begin = func(detail func() string) {
+		mu.Lock()
+		started, running, det = time.Now(), true, detail
+		mu.Unlock()
+	}
+	end = func() {
+		mu.Lock()
+		running = false
+		mu.Unlock()
+	}
+	return
+}
+
 // SetProgressDetail stores a longer description of what is about to run in
 // the progress file (used by C20 where the process itself may die).
 func (c *Ctx) SetProgressDetail(s string) {
@@ -279,7 +325,8 @@ func TopLungoFrame(stack string) string {
 	for _, l := range strings.Split(stack, "\n") {
 		l = strings.TrimSpace(l)
 		if strings.HasPrefix(l, "github.com/256dpi/lungo") {
-			if i := strings.Index(l, "("); i > 0 {
+			// strip the argument list (the last parenthesis group)
+			if i := strings.LastIndex(l, "("); i > 0 {
 				return l[:i]
 			}
 			return l
@@ -296,7 +343,7 @@ func RunWorker(id, tier string, seed uint64, batch, nbatches, only int, out, pro
 		return 2
 	}
 	c := &Ctx{ID: id, Tier: tier, Seed: seed, Batch: batch, NBatches: nbatches, Only: only, Scratch: scratch,
-		hashSet: map[uint64]struct{}{}}
+		hashSet: map[uint64]struct{}{}, out: out}
 	c.res.Batch = batch
 	c.res.Counters = map[string]int64{}
 	if progress != "" {
@@ -313,7 +360,15 @@ func RunWorker(id, tier string, seed uint64, batch, nbatches, only int, out, pro
 		}()
 		chk.Run(c)
 	}()
+	return c.finish()
+}
+
+// finish writes the result file of the batch.
+func (c *Ctx) finish() int {
+	c.mu.Lock()
+	defer c.mu.Unlock()
 	c.res.Done = true
+	c.res.Hashes = c.res.Hashes[:0]
 	for h := range c.hashSet {
 		c.res.Hashes = append(c.res.Hashes, h)
 	}
@@ -330,7 +385,7 @@ func RunWorker(id, tier string, seed uint64, batch, nbatches, only int, out, pro
 			return 2
 		}
 	}
-	if err := os.WriteFile(out, b, 0644); err != nil {
+	if err := os.WriteFile(c.out, b, 0644); err != nil {
 		fmt.Fprintf(os.Stderr, "write result: %v\n", err)
 		return 2
 	}
